@@ -64,6 +64,10 @@ type handler1 struct {
 	// changes of the sleep state: nothing may be sent to the client after
 	// the packet which puts it to sleep.
 	snLock sync.Mutex
+	// mqttLock makes a packet written to the broker atomic: more goroutines
+	// send (the receive loops, retry timers, pingers) and a write to a slow
+	// broker can be done in several steps (see util.ConnWithContext.Write).
+	mqttLock sync.Mutex
 	// The client has sent a plain DISCONNECT (guarded by snLock).
 	clientGone bool
 	group            *errgroup.Group
@@ -1179,7 +1183,9 @@ func (h *handler1) mqttSend(pkt mqPkts.ControlPacket) error {
 	if err != nil {
 		return err
 	}
+	h.mqttLock.Lock()
 	_, err = h.mqttConn.Write(buff.Bytes())
+	h.mqttLock.Unlock()
 	if err != nil {
 		return err
 	}
